@@ -140,6 +140,39 @@ pub fn record_c05(args: &Args, mut out: Out) -> usize {
         l.push(("KK".to_string(), ":0.125"));
         lists.push(l);
     }
+    // sandwiches: a token repeated verbatim (or with another weight) around a token that overlaps it; the last one wins.
+    // These lists are written without random spaces, so that the repeated token is the same text
+    let mut plain: Vec<usize> = vec![];
+    for i in 0..args.num("sandwiches", 150) as usize {
+        let t = rng.pick(&bodies).clone();
+        let u = if i % 3 == 0 {
+            t.clone()
+        } else {
+            let first = t.chars().next().unwrap();
+            let cands: Vec<&String> = bodies.iter().filter(|x| x.starts_with(first) && x.len() <= t.len() + 1).collect();
+            (*rng.pick(&cands)).clone()
+        };
+        let lt = *rng.pick(&LITS);
+        let mut lu = *rng.pick(&LITS);
+        while f32_bits_of_literal(lu) == f32_bits_of_literal(lt) {
+            lu = *rng.pick(&LITS);
+        }
+        let mut l3 = *rng.pick(&LITS);
+        while f32_bits_of_literal(l3) == f32_bits_of_literal(lt) || f32_bits_of_literal(l3) == f32_bits_of_literal(lu) {
+            l3 = *rng.pick(&LITS);
+        }
+        let (tt, uu, t3) = ((t.clone(), lt), (u.clone(), lu), (t.clone(), l3));
+        let shapes: Vec<Vec<(String, &str)>> = vec![
+            vec![tt.clone(), uu.clone(), tt.clone()],
+            vec![tt.clone(), uu.clone(), tt.clone(), uu.clone()],
+            vec![tt.clone(), uu.clone(), t3.clone(), uu.clone(), tt.clone()],
+            vec![uu.clone(), tt.clone(), tt.clone(), uu.clone()],
+        ];
+        let l = shapes[i % 4].clone();
+        plain.push(lists.len());
+        lists.push(l.clone());
+        lists.push(l);
+    }
     for _ in 0..nlists {
         let k = 1 + rng.usize(12);
         let mut l = vec![];
@@ -156,20 +189,21 @@ pub fn record_c05(args: &Args, mut out: Out) -> usize {
         }
         lists.push(l);
     }
-    for l in lists {
+    for (li, l) in lists.into_iter().enumerate() {
+        let spaces = !plain.contains(&li);
         let mut text = String::new();
         for (i, (b, lit)) in l.iter().enumerate() {
             if i > 0 {
                 text.push(',');
             }
             for ch in b.chars() {
-                if rng.chance(1, 10) {
+                if spaces && rng.chance(1, 10) {
                     text.push(' ');
                 }
                 text.push(ch);
             }
             text.push_str(lit);
-            if rng.chance(1, 6) {
+            if spaces && rng.chance(1, 6) {
                 text.push(' ');
             }
         }
